@@ -16,9 +16,6 @@ package main
 
 import (
 	"context"
-	"os"
-	"runtime/pprof"
-	"syscall"
 	"encoding/base64"
 	"encoding/json"
 	"errors"
@@ -869,22 +866,12 @@ func main() {
 		}
 	}
 	sort.SliceStable(cases, func(i, j int) bool { return false })
-	pf, _ := os.Create("/tmp/c06.prof")
-	pprof.StartCPUProfile(pf)
 	r.Parallel(len(cases), func(i int) {
 		w.run(r, cases[i])
 		if i%2503 == 0 {
 			r.Sample(map[string]any{"case": cases[i].String(), "model": w.model(cases[i])})
 		}
 	}, nil)
-	cpu := func(tag string) {
-		var ru syscall.Rusage
-		syscall.Getrusage(syscall.RUSAGE_SELF, &ru)
-		fmt.Fprintf(os.Stderr, "PHASE %s cpu=%.1fs wall=%s\n", tag, float64(ru.Utime.Sec)+float64(ru.Utime.Usec)/1e6+float64(ru.Stime.Sec), time.Since(now))
-	}
-	pprof.StopCPUProfile()
-	pf.Close()
-	cpu("parallel")
 	// sequential: the verifier's time zone (time.Local) is process-global
 	for _, c := range zoneCases {
 		w.run(r, c)
@@ -892,10 +879,8 @@ func main() {
 	if s, _ := w.forgeBroken.Load().(string); s != "" {
 		r.Infra("zoned envelope: %s", s)
 	}
-	cpu("zone")
 	// sequential: the displaced clock is process-global
 	w.clockFamily(r)
-	cpu("clock")
 	r.Extra["observable_through_all_log_level"] = w.observed.Load()
 	r.Extra["positive_controls"] = w.controls.Load()
 	r.Extra["positive_controls_passed"] = w.controlsOK.Load()
